@@ -79,7 +79,7 @@ func (s *Sched) predKind(f *ssa.Function) string {
 		for _, b := range f.Blocks {
 			for _, in := range b.Instrs {
 				if u, ok := in.(*ssa.UnOp); ok && u.Op == token.MUL {
-					if p, okp := e.C.PathOf(u); okp && len(p.Fields) == 1 && p.Fields[0] == field && strings.HasSuffix(ir.NamedType(p.Root.Type()), ".Scheduler") {
+					if p, okp := e.C.PathOf(u); okp && len(p.Fields) >= 1 && len(p.Fields) <= 2 && p.Fields[len(p.Fields)-1] == field && isSchedOwner(p.Root.Type()) && (len(p.Fields) == 1 || schedOwners[p.Fields[0]]) {
 						return true
 					}
 				}
@@ -1093,7 +1093,7 @@ func c04HandlerStatus(e *Env, s *Sched) {
 	}
 	isDry := func(v ssa.Value) bool {
 		p, ok := e.C.PathOf(v)
-		return ok && p.Dotted() == e.schedFields().Dry
+		return (ok && p.Dotted() == e.schedFields().Dry) || e.isDryFlag(v, 0)
 	}
 	var evs []ir.StoreEvent
 	for _, g := range sortedFns(e.inlinedSet(fn, nil)) {
